@@ -162,15 +162,16 @@ type loadResult struct {
 }
 
 func loadVia(data []byte, script []simio.ReadStep, name string, disasm bool) *loadResult {
-	return loadInto(data, script, name, disasm, false)
+	return loadInto(data, script, name, disasm, false, rkPlain)
 }
 
 // loadInto loads through LoadProg, or (used) through the Load method of a Prog that held
 // another program before; the listing is then produced by a second, fresh load of the re-dump
 // being compared anyway, so it is left empty.
-func loadInto(data []byte, script []simio.ReadStep, name string, disasm, used bool) *loadResult {
+func loadInto(data []byte, script []simio.ReadStep, name string, disasm, used bool, rkind int) *loadResult {
 	lr := &loadResult{Out: &bytes.Buffer{}, Log: &bytes.Buffer{}}
-	rd := &simio.SimReader{Data: data, Script: script}
+	rd0 := &simio.SimReader{Data: data, Script: script}
+	rd := readerOfKind(rd0, rkind, len(data)+1+len(data)%977)
 	func() {
 		defer func() {
 			if x := recover(); x != nil {
@@ -187,7 +188,7 @@ func loadInto(data []byte, script []simio.ReadStep, name string, disasm, used bo
 		lr.Prog, lr.Err = bcl.LoadProg(rd, name, bcl.OptOutput(lr.Out), bcl.OptLogger(lr.Log), bcl.OptDisasm(disasm))
 	}()
 	lr.Listing = lr.Out.String()
-	lr.Reads = len(rd.Ends)
+	lr.Reads = len(rd0.Ends)
 	Beat()
 	return lr
 }
@@ -201,16 +202,25 @@ func c09Check(sc *Scenario, script []simio.ReadStep, dump []byte, listing string
 		return c
 	}
 	used := (len(dump)+len(script))%5 == 0
-	lr := loadInto(dump, script, "other-name", true, used)
+	// every other load goes through a reader that also has Stat, Len or Size (readerkinds.go):
+	// whatever those say, the bytes are complete and must load
+	rkind := rkPlain
+	if k := (len(dump)*7 + len(script)*3) % (2 * rkCount); k < rkCount {
+		rkind = k
+	}
+	lr := loadInto(dump, script, "other-name", true, used, rkind)
 	if used {
 		o.probe("loaded_into_used_prog", 1)
+	}
+	if rkind != rkPlain {
+		o.fault("reader_kind:"+readerKindName[rkind], 1)
 	}
 	if lr.Panic != "" {
 		o.viol("C09", "panic", "load:"+normSig(lr.Panic), "LoadProg panicked on a complete dump: "+lr.Panic, concrete())
 		return lr.Reads
 	}
 	if lr.Err != nil {
-		o.viol("C09", "load-error", normSig(lr.Err.Error()), fmt.Sprintf("LoadProg refused a complete dump of %d bytes delivered in %d reads: %v", len(dump), lr.Reads, lr.Err), concrete())
+		o.viol("C09", "load-error", normSig(lr.Err.Error()), fmt.Sprintf("LoadProg refused a complete dump of %d bytes delivered in %d reads by a %s: %v", len(dump), lr.Reads, readerKindName[rkind], lr.Err), concrete())
 		return lr.Reads
 	}
 	d2, derr, dpanic := DumpProg(lr.Prog)
